@@ -662,7 +662,7 @@ func main() {
 		runCase(run, c.Case)
 		run.Finish()
 	}
-	n := run.N(160, 4000)
+	n := run.N(480, 4000)
 	sim.Parallel(n, 16, func(i int) { runCase(run, i) })
 	for _, cn := range []string{"verdict:ACTIVE", "verdict:FALLEN", "tx:r3:justified-complaint:true", "tx:r3:false-complaint:true", "tx:r2:cheating-dealer:true"} {
 		run.Require(cn, 1)
